@@ -5,6 +5,7 @@ import (
 	"compress/gzip"
 	"encoding/binary"
 	"fmt"
+	ts "github.com/xelaj/mtproto/zverif/ref/tlschema"
 	"io"
 	"math/rand"
 	"os"
@@ -211,6 +212,12 @@ func c15(c *wk.Ctx) {
 	sortU32(enumIDs)
 	types := u.Types
 	idx := 0
+	// cold start (every shard, before anything else has been decoded in this process): the first decodes happen in
+	// eight goroutines at once, as in an application that starts several clients. Inputs come from the reference
+	// serialiser, so the library has not even encoded these types yet.
+	c.Begin(idx, "cold concurrent decode")
+	c15cold(c, idx)
+	idx++
 	perType := c.Pick(2, 12)
 	for _, t := range types {
 		for k := 0; k < perType; k++ {
@@ -376,6 +383,49 @@ func c15(c *wk.Ctx) {
 			c.Distinct("random", len(in), k%1024)
 		}
 		idx++
+	}
+}
+
+func c15cold(c *wk.Ctx, idx int) {
+	if err := loadSchemas(); err != nil {
+		c.Log.Emit(coreInconclusive(err.Error()))
+		return
+	}
+	r := rand.New(rand.NewSource(c.Seed*1000 + int64(c.Shard)))
+	costs := allSchema.ComputeCosts()
+	type item struct {
+		name string
+		b    []byte
+	}
+	sets := make([][]item, 8)
+	for g := range sets {
+		for len(sets[g]) < 60 {
+			d := apiSchema.Defs[r.Intn(len(apiSchema.Defs))]
+			if len(d.Generics) > 0 {
+				continue
+			}
+			v := allSchema.Gen(d, &ts.GenOpts{R: r, MaxDepth: 2, Costs: costs, ForceStrLen: -1}, 0)
+			b, err := ts.Serialize(v)
+			if err != nil {
+				continue
+			}
+			sets[g] = append(sets[g], item{d.Name, b})
+		}
+	}
+	res := concurrently(8, c.Seed, func(g int, _ *rand.Rand) string {
+		for _, it := range sets[g] {
+			if _, err := tl.DecodeUnknownObject(it.b); err != nil {
+				return fmt.Sprintf("error: a valid %s is refused while seven other goroutines decode for the first time: %v", it.name, err)
+			}
+		}
+		return ""
+	})
+	c.Count("evaluations", 8*60)
+	c.Count("cold_concurrent_decodes", 8*60)
+	for _, m := range res {
+		if m != "" {
+			c.Viol("C15", idx, "cold-concurrent/"+strings.SplitN(m, ":", 2)[0], m, nil)
+		}
 	}
 }
 
